@@ -485,6 +485,12 @@ def run_shard(ctx):
     from vlib import fingerprint as fpm  # pylint: disable=import-outside-toplevel
     from vlib import sut  # pylint: disable=import-outside-toplevel
 
+    # "for every supported schema document the module text is produced": generation must finish - judged in
+    # entries into the annotation routines per module, not on the clock (the routine lives with C19's code)
+    from vlib.checks.c19 import annotation_work  # pylint: disable=import-outside-toplevel
+
+    if not ctx.mirror:
+        annotation_work(ctx, sut)
     for idx in range(ctx.params["docs"] * 2):
         dsl_module(ctx, sut, fpm, idx)
 
@@ -505,6 +511,11 @@ def replay(case, ctx):
     from vlib import fingerprint as fpm  # pylint: disable=import-outside-toplevel
     from vlib import sut  # pylint: disable=import-outside-toplevel
 
+    if "annotation_work" in case:
+        from vlib.checks.c19 import annotation_work  # pylint: disable=import-outside-toplevel
+
+        annotation_work(ctx, sut, only=case["annotation_work"])
+        return
     if "spec" in case:
         from vlib import gen_dsl  # pylint: disable=import-outside-toplevel
 
